@@ -599,10 +599,11 @@ class BaseBackend(CodeGen):
         t0 = func_args[0]
         y0 = func_args[1]
 
-        # use a safer way to generate time points (endpoint=False ensures times match Euler step indices)
+        # stored row k is the state after k*store_step steps, i.e. at time k*step (also when T is not a multiple
+        # of step, where linspace(0, T, n, endpoint=False) would stretch the axis to a spacing of T/n)
         step = dts if dts else dt
         n_time_points = round(T/step)
-        times = np.linspace(0.0, T, num=n_time_points, endpoint=False)
+        times = step * np.arange(n_time_points)
 
         # perform simulation
         results = self._solve(solver=solver, func=func, args=func_args[2:], T=T, dt=dt, dts=dts, y0=y0, t0=t0,
